@@ -5,6 +5,7 @@ import (
 	"encoding/binary"
 	"encoding/gob"
 	"errors"
+	"fmt"
 	"sort"
 	"sync"
 
@@ -240,6 +241,10 @@ func newPreloadedColGetter(db *bbolt.DB) (colGetter, error) {
 		c := tx.Bucket([]byte("data")).Cursor()
 
 		for k, v := c.Seek(keyPrefixValue); k != nil && bytes.HasPrefix(k, keyPrefixValue); k, v = c.Next() {
+			if len(k) != len(keyPrefixValue)+8 {
+				return fmt.Errorf("not an updog index: invalid bitmap key of length %d", len(k))
+			}
+
 			key := binary.BigEndian.Uint64(k[1:])
 
 			bm := roaring.New()
